@@ -19,6 +19,8 @@ PROPS["C16"] = {
             {"run": "^TestBIP340$", "checks": 4000, "shards": 6},
         ],
         "thorough": [
+            {"fuzz": "FuzzECDSAVerify", "fuzztime": "60s", "workers": 4, "timeout": 400},
+            {"fuzz": "FuzzBIP340", "fuzztime": "60s", "workers": 4, "timeout": 400},
             {"run": "^TestVectors$"},
             {"run": "^TestECDSAVerify$", "checks": 120000, "shards": 6},
             {"run": "^TestSigEthereum$", "checks": 40000, "shards": 4},
@@ -158,6 +160,8 @@ PROPS["C19"] = {
             {"run": "^TestCommit$", "checks": 30000, "shards": 4},
         ],
         "thorough": [
+            {"fuzz": "FuzzTranscript", "fuzztime": "90s", "workers": 6, "timeout": 400},
+            {"fuzz": "FuzzCommit", "fuzztime": "60s", "workers": 4, "timeout": 400},
             {"run": "^TestTranscript$", "checks": 2000000, "shards": 10},
             {"run": "^TestCommit$", "checks": 600000, "shards": 6},
         ],
@@ -362,6 +366,7 @@ PROPS["C15"] = {
             {"run": "^TestWireRoundTrip$", "checks": 200, "shards": 2},
         ],
         "thorough": [
+            {"fuzz": "FuzzRestore", "fuzztime": "180s", "workers": 8, "timeout": 600},
             {"run": "^TestCorrupt$", "checks": 1200000, "shards": 12},
             {"run": "^TestRoundTrip$", "checks": 12000, "shards": 12},
             {"run": "^TestWireRoundTrip$", "checks": 8000, "shards": 4},
@@ -477,6 +482,7 @@ PROPS["C05"] = {
             {"run": "^TestCMP$", "checks": 60, "shards": 12, "timeout": 2400},
         ],
         "thorough": [
+            {"fuzz": "FuzzAccept", "fuzztime": "240s", "workers": 8, "timeout": 800},
             {"run": "^TestSweep$", "shards": 16, "timeout": 9000},
             {"run": "^TestCheap$", "checks": 200000, "shards": 6},
             {"run": "^TestDoerner$", "checks": 40000, "shards": 4},
